@@ -35,15 +35,46 @@ pub struct QuakeState {
 const VAL_EXCL: &[char] = &['\\', '\n'];
 const TOKEN_EXCL: &[char] = &['\\', '\n', ' ', '"'];
 
+/// A token that may itself contain double quotes (at its ends or inside): only ONE wrapping pair is transport syntax.
+fn quoteful(max: usize) -> impl Strategy<Value = String> {
+    prop_oneof![
+        5 => text(TOKEN_EXCL, max).boxed(),
+        1 => (text(TOKEN_EXCL, max), 0u8 .. 7).prop_map(|(t, how)| match how {
+            0 => format!("\"{t}"),
+            1 => format!("{t}\""),
+            2 => format!("\"{t}\""),
+            3 => format!("\"\"{t}"),
+            4 => "\"".to_string(),
+            5 => "\"\"".to_string(),
+            _ => {
+                let mid = t.chars().count() / 2;
+                let mut o: String = t.chars().take(mid).collect();
+                o.push('"');
+                o.extend(t.chars().skip(mid));
+                o
+            }
+        }).boxed(),
+    ]
+}
+
+/// What a token denotes: exactly one pair of wrapping quotes is removed, if there is one.
+pub fn unwrap_once(token: &str) -> String {
+    if token.len() >= 2 && token.starts_with('"') && token.ends_with('"') {
+        token[1 .. token.len() - 1].to_string()
+    } else {
+        token.to_string()
+    }
+}
+
 fn player() -> impl Strategy<Value = QPlayer> {
     (
         any::<u8>(),
         prop_oneof![any::<i32>(), -5i32..200],
         any::<u16>(),
         prop_oneof![any::<u16>(), 0u16..300],
-        text(TOKEN_EXCL, 24),
+        quoteful(24),
         any::<bool>(),
-        text(TOKEN_EXCL, 10),
+        quoteful(10),
         any::<u8>(),
         any::<u8>(),
         prop::option::of("[0-9]{1,3}\\.[0-9]{1,3}\\.[0-9]{1,3}\\.[0-9]{1,3}:[0-9]{1,5}"),
@@ -214,8 +245,8 @@ impl QuakeState {
                         score: p.frags as u16,
                         time: p.time,
                         ping: p.ping,
-                        name: p.name.clone(),
-                        skin: p.skin.clone(),
+                        name: unwrap_once(&quote(&p.name, p.name_quoted)),
+                        skin: unwrap_once(&quote(&p.skin, true)),
                         color_primary: p.c1,
                         color_secondary: p.c2,
                     }
@@ -240,7 +271,7 @@ impl QuakeState {
                     quake::two::Player {
                         score: p.frags,
                         ping: p.ping,
-                        name: p.name.clone(),
+                        name: unwrap_once(&quote(&p.name, p.name_quoted)),
                         address: p.address.clone(),
                     }
                 })
